@@ -12,7 +12,14 @@ elements of a passive array statement are evaluated with packets (SIMD vectors o
   (include/adept/Expression.h), `BinaryOperation::alignment_offset_<n>()`,
   `BinaryOperation::all_arrays_contiguous_()` (include/adept/BinaryOperation.h), the pass-through
   versions of `UnaryOperation`, `NoAlias`, `BinaryOpScalarLeft/Right`;
-* the vectorized `reduce_inactive` (include/adept/reduce.h).
+* the vectorized `reduce_inactive` (include/adept/reduce.h);
+* the compile-time trait `is_vectorizable` of every expression node class, which selects between the packet overloads and
+  the element-by-element overloads of `Array::assign_expression_` and `reduce_inactive` (`Expr.vectorizable`): the
+  element-wise nodes (`UnaryOperation`, `BinaryOperation`, `BinaryOpScalarLeft/Right`, `NoAlias`) are vectorizable when their
+  operands are and their operation has a packet form (`Op::is_vectorized`, same element type on both sides); `Spread` only
+  when the spread dimension is not the last dimension of the result (include/adept/spread.h); `OuterProduct`
+  (include/adept/outer_product.h), `IndexedArray`, `SpecialMatrix`, bool-valued nodes never.  The census of these traits over
+  ALL node classes is regenerated from the sources (translate/vectrait.py -> AdeptModel/Generated/VecTraits.lean).
 
 Nothing here is about floating point: lane-wise equality of the intrinsics with the scalar operation and
 all rounding statements are observed by checks/c05.py, not proved.
@@ -117,11 +124,39 @@ inductive Expr
   | fixed (a : Nat) (dims : List Nat)
   /-- a scalar, or any other node that uses the fall-back `alignment_offset_<n>() { return n; }` -/
   | agn
-  /-- unary operation / `noalias` / scalar-array operation: passes its argument's answer through -/
-  | un (e : Expr)
-  /-- `BinaryOperation` of two array expressions -/
-  | bin (l r : Expr)
+  /-- unary operation / `noalias` / scalar-array operation: passes its argument's answer through.
+      `opVec` = the operation has a packet form: `Op<Type>::is_vectorized` (`UnaryOperation`: unary minus, sqrt, fastexp yes;
+      abs, exp, log, sin … no), `Op::is_vectorized && is_same<scalar type, element type>` (`BinaryOpScalarLeft/Right`:
+      + - * / max min yes; pow, atan2, comparisons no), always for `noalias`; `false` also stands for the bool-valued
+      `UnaryBoolOperation` (isnan …), which keeps `Expression`'s fall-back trait -/
+  | un (opVec : Bool) (e : Expr)
+  /-- `BinaryOperation` of two array expressions; `opVec` = `Op::is_vectorized && is_same<L::type,R::type>`
+      (+ - * / max min on operands of one type yes; pow, atan2, comparisons, && ||, mixed float/double no) -/
+  | bin (opVec : Bool) (l r : Expr)
+  /-- `Spread<SpreadDim,Type,E>` (spread.h): holds its argument as an `Array` (a shallow copy of an array argument, else a
+      fresh copy of the evaluated argument); `last` = the spread dimension is the last dimension of the result
+      (`SpreadDim == E::rank`): then `advance_location_` must NOT move the argument's index along a row, which the packet
+      loops (they advance every index themselves) cannot honour -/
+  | spread (last : Bool) (v : View)
+  /-- `OuterProduct` (outer_product.h) of two vectors held as `Array<1>`: the left index must not move along a row;
+      never vectorizable; `alignment_offset_` / `all_arrays_contiguous_` answer for the right vector -/
+  | outer (l r : View)
+  /-- a leaf that keeps `Expression`'s fall-back `is_vectorizable = false`, `alignment_offset_<n>() = n`,
+      `all_arrays_contiguous_() = true`: `IndexedArray`; also `SpecialMatrix` (declares `false`) -/
+  | plain
 deriving Repr
+
+/-- the compile-time trait `is_vectorizable` of the expression's type (for an element type that has packets at all:
+    `Packet<Type>::is_vectorized`, i.e. `W > 1`, is tested by the callers) -/
+def Expr.vectorizable : Expr → Bool
+  | .arr _ => true                     -- Array.h: Packet<Type>::is_vectorized
+  | .fixed _ _ => true                 -- FixedArray.h: Packet<Type>::is_vectorized
+  | .agn => true                       -- Expression.h, Scalar: true
+  | .un opVec e => opVec && e.vectorizable
+  | .bin opVec l r => l.vectorizable && r.vectorizable && opVec
+  | .spread last _ => !last            -- spread.h: SpreadDim != E::rank
+  | .outer _ _ => false                -- outer_product.h
+  | .plain => false                   -- Expression.h fall-back
 
 /-- `alignment_offset_<n>()` over the tree: a leaf's offset `0 … n-1`, `n` = "alignment does not matter",
     `-1` = clash -/
@@ -129,8 +164,11 @@ def Expr.alignOff (cfg : Cfg) (W : Nat) : Expr → Int
   | .arr v => arrOffset W v.a
   | .fixed a _ => fixedOffset cfg W a
   | .agn => W
-  | .un e => e.alignOff cfg W
-  | .bin l r =>
+  | .spread _ v => arrOffset W v.a
+  | .outer _ r => arrOffset W r.a
+  | .plain => W
+  | .un _ e => e.alignOff cfg W
+  | .bin _ l r =>
     -- BinaryOperation::alignment_offset_<n>()
     let lo := l.alignOff cfg W
     let ro := r.alignOff cfg W
@@ -149,8 +187,11 @@ def Expr.allContig (cfg : Cfg) (W : Nat) : Expr → Bool
   | .arr v => arrContig cfg W v
   | .fixed _ dims => fixedContig cfg W dims
   | .agn => true
-  | .un e => e.allContig cfg W
-  | .bin l r => l.allContig cfg W && r.allContig cfg W
+  | .spread _ v => arrContig cfg W v
+  | .outer _ r => arrContig cfg W r
+  | .plain => true
+  | .un _ e => e.allContig cfg W
+  | .bin _ l r => l.allContig cfg W && r.allContig cfg W
 
 /-! ## the loop partition -/
 
@@ -189,21 +230,28 @@ def planCore (W n rows : Nat) (s : Int) (tgtOff : Option Nat) : Plan :=
     let ie := iendOf W n is
     ⟨true, is, ie, rows * ((ie - is) / W)⟩
 
-/-- `Array::assign_expression_` for a passive target and a passive vectorizable right-hand side of the same
-    type (rank 1: `offset_[0] == 1`; rank > 1: `all_arrays_contiguous_()`; the model's `arrContig` is both,
-    because `columnsAligned` is `true` when there is no outer dimension) -/
+/-- `Array::assign_expression_` for a passive target and a passive right-hand side of the same type.  The overload
+    is chosen by `expr_cast<E>::is_vectorizable`: a right-hand side whose type is not vectorizable is evaluated by the
+    element-by-element overload, which has no packet loop (the hook stays silent: `Plan.scalar`).  Vectorizable:
+    rank 1: `offset_[0] == 1`; rank > 1: `all_arrays_contiguous_()`; the model's `arrContig` is both,
+    because `columnsAligned` is `true` when there is no outer dimension -/
 def assignPlan (cfg : Cfg) (W : Nat) (t : View) (rhs : Expr) : Plan :=
   if W ≤ 1 then Plan.scalar
-  else if 2 * W ≤ t.n && arrContig cfg W t && rhs.allContig cfg W then
+  else if rhs.vectorizable && 2 * W ≤ t.n && arrContig cfg W t && rhs.allContig cfg W then
     planCore W t.n (rowsOf t.outerDims) (rhs.alignmentOffset cfg W) (some (arrOffset W t.a))
   else Plan.scalar
 
-/-- vectorized `reduce_inactive` over an expression whose extents are `outerDims ++ [n]` -/
+/-- `reduce_inactive` over an expression whose extents are `outerDims ++ [n]`: the vectorized overload is chosen by
+    `E::is_vectorizable && Packet<Type>::is_vectorized` (and the accumulator having the element type) -/
 def reducePlan (cfg : Cfg) (W : Nat) (outerDims : List Nat) (n : Nat) (rhs : Expr) : Plan :=
   if W ≤ 1 then Plan.scalar
-  else if 2 * W ≤ n && rhs.allContig cfg W then
+  else if rhs.vectorizable && 2 * W ≤ n && rhs.allContig cfg W then
     planCore W n (rowsOf outerDims) (rhs.alignmentOffset cfg W) none
   else Plan.scalar
+
+/-- `A.where(B) = C` (where.h -> `Array::assign_conditional_`): evaluated element by element whatever `C` is; there is
+    no packet loop on this path -/
+def wherePlan : Plan := Plan.scalar
 
 /-! ## which accumulator receives which element (reduce_inactive, one row) -/
 
